@@ -512,6 +512,69 @@ def run_routes(case):
   return routes_agree(case[0], ent[0], ent[1], ent[2], ent[3] if len(ent) > 3 else 0)
 
 
+# ---------------------------------------------------------------- long inputs
+def lcg_seq(n, seed, alphabet):
+  out, v = [], seed
+  for _ in range(n):
+    v = (v * 1103515245 + 12345) % (2 ** 31)
+    out.append(alphabet[(v >> 8) % len(alphabet)])
+  return out
+
+
+LONG_TOOLS = OrderedDict([("zcross", run_zcross), ("unwrap", run_unwrap), ("clip", None), ("amdf", run_amdf),
+                          ("envelope", run_envelope), ("maverage", None), ("accumulate", None)])
+
+
+def gen_long(run):
+  for tool in LONG_TOOLS:
+    for n in (64, 65, 130, run.pick(400, 2000)):
+      for seed in (1, 2):
+        yield (tool, n, seed)
+
+
+def run_long(case):
+  """The same oracles on sequences of hundreds of samples (and lengths around powers of two)."""
+  tool, n, seed = case
+  alpha = ALPHA_FINE if tool in ("unwrap", "zcross") else ALPHA
+  xs = lcg_seq(n, seed, alpha)
+  if tool == "clip":
+    r = run_clip(xs)
+  elif tool in ("zcross", "unwrap", "amdf", "envelope"):
+    r = LONG_TOOLS[tool](xs)
+  elif tool == "accumulate":
+    x = [F(v) for v in xs]
+    want, acc = [], F(0)
+    for v in x:
+      acc += v
+      want.append(acc)
+    for strat in ("accumulate", "itertools", "func", "pure_python", "z"):
+      got = [fq(v) for v in accumulate[strat]([Q(v) for v in x])]
+      if got != want:
+        k = next((i for i, (g, e) in enumerate(zip(got, want)) if g != e), min(len(got), len(want)))
+        return bad("accumulate:value-long", "accumulate.%s is not the running sum on a long input" % strat,
+                   {"n": k, "value": want[k] if k < len(want) else None, "length": len(want)},
+                   {"value": got[k] if k < len(got) else None, "length": len(got)}, True)
+    return R(None, True, ("accumulate", n > 200))
+  else:
+    x = [F(v) for v in xs]
+    for size in (16, 33, 64, 100):
+      want = [sum(x[max(0, i - size + 1):i + 1], F(0)) / size for i in range(len(x))]
+      for strat in ("deque", "recursive", "feedback", "fir"):
+        got = list(maverage[strat](size)([Q(v) for v in x], zero=Q(0)))
+        if len(got) != len(want):
+          return bad("maverage:length-long", "one output per input", len(want), len(got), True)
+        for i, (g, e) in enumerate(zip(got, want)):
+          gv = fq(g)
+          tol = 0 if size in (16, 64) else F(size * 8) * F(2) ** -53 * (1 + abs(e))
+          if abs(gv - e) > tol:
+            return bad("maverage:value-long", "maverage.%s(%d) is not the mean of the last size samples on a long input"
+                       % (strat, size), {"n": i, "value": str(e)}, str(gv), True)
+    return R(None, True, ("maverage", n > 200))
+  if r.viol is not None:
+    r.viol["key"] = r.viol["key"] + "-long"
+  return r
+
+
 KINDS = OrderedDict([
   ("maverage", Kind(gen_maverage, run_maverage, chunk=10, rule="strategy x size x zero kind x length on symbolic input")),
   ("reuse", Kind(gen_interleave, run_interleave, chunk=2, rule="one filter object, two signals, interleaved consumption")),
@@ -527,4 +590,6 @@ KINDS = OrderedDict([
   ("zcross-fine", Kind(gen_fine, run_zcross, chunk=100, rule="sequences over the finer alphabet x hysteresis x first_sign")),
   ("call-routes", Kind(gen_routes, run_routes, chunk=1,
                        rule="each function with every documented parameter set: all positional / all keyword / every split must agree")),
+  ("long", Kind(gen_long, run_long, chunk=1, timeout=300,
+                rule="every tool on pseudo-random sequences of 64, 65, 130 and 400 (2000) samples, same oracles")),
 ])
